@@ -38,7 +38,7 @@ STUBS = ["FakeNp.random.default_rng(seed=s): StreamRng whose k-th draw is the to
          "Leaf dataset with getitem_x / getitem_semseg tokens; Forward KDWrapper"]
 ASSUMPTIONS = ["equal seeds give equal generator streams", "a generator created at construction time from the global RNG is history dependent (that is what the hook is there to replace)"]
 OUTSIDE = ["real worker processes", "pixel kernels", "numeric draws of KDMixWrapper (C11)", "the ready-made wrappers under common/ beyond their use of the same base classes"]
-BOUNDS = {"quick": "9 stack shapes; seed unbounded, dataset size n<=6, requested index and two histories of 2 preceding accesses each symbolic",
+BOUNDS = {"quick": "10 stack shapes (incl. a seeded transform wrapper above a wrapper with fused x+class loading); seed unbounded, dataset size n<=6, requested index and two histories of 2 preceding accesses each symbolic",
           "thorough": "same stacks with histories of 3 preceding accesses, n<=8"}
 
 CALLS = [0]
@@ -103,12 +103,31 @@ class Forward(KDWrapper):
     pass
 
 
-STACKS = ["x-single", "x-compose", "x-nested-compose", "x-under-forward", "x-over-forward", "multiview", "semseg",
+class FusedXC(KDWrapper):
+    """declares x and class as jointly loaded (like KDMixWrapper does)"""
+
+    @property
+    def fused_operations(self):
+        return super().fused_operations + [["x", "class"]]
+
+    def getitem_x(self, idx, ctx=None):
+        return self.dataset.getitem_x(idx, ctx)
+
+    def getitem_class(self, idx, ctx=None):
+        return ("class", idx)
+
+    def getitem_xclass(self, idx, ctx=None):
+        return self.dataset.getitem_x(idx, ctx), ("class", idx)
+
+
+STACKS = ["x-over-fused", "x-single", "x-compose", "x-nested-compose", "x-under-forward", "x-over-forward", "multiview", "semseg",
           "x-random-apply", "x-scheduled"]
 
 
 def build(stack, n, seed):
     ds = Leaf(n)
+    if stack == "x-over-fused":
+        return XTransformWrapper(FusedXC(ds), ProbeT(), seed=seed), "class x"
     if stack == "x-single":
         return XTransformWrapper(ds, ProbeT(), seed=seed), "x"
     if stack == "x-compose":
